@@ -44,6 +44,8 @@ type Scenario struct {
 	faultMatch    string
 	faultMode     string
 	foreign       bool // populate instances owned by another worker
+	leftBehind    bool // the leader's left-behind sweep races the owner starting the instance
+	wdAt          int  // step at which the clock jumps and an expired sweep races a live run (-1 never)
 	desc          string
 }
 
@@ -57,7 +59,7 @@ func (s *Scenario) script(taskID, ph string, att int) phaseScript {
 
 // genScenario draws a scenario; kind selects a directed family, "" = general mix.
 func genScenario(rng *Rng, kind string) *Scenario {
-	s := &Scenario{scripts: map[string][]phaseScript{}, closeAt: -1, cancelAt: -1}
+	s := &Scenario{scripts: map[string][]phaseScript{}, closeAt: -1, cancelAt: -1, wdAt: -1}
 	n := 1 + rng.Intn(6)
 	shape := rng.Intn(6)
 	if kind == "diamond" {
@@ -192,6 +194,10 @@ func genScenario(rng *Rng, kind string) *Scenario {
 	case "cmdrace":
 		s.cmdMidFlight = true
 		s.retries = 2
+	case "leftbehind":
+		s.leftBehind = true
+	case "wdrace":
+		s.wdAt = 3 + rng.Intn(25)
 	case "foreign":
 		s.foreign = true
 		s.retries = 2
@@ -369,6 +375,27 @@ func runScenario(w *World, rng *Rng, s *Scenario, maxSteps int) *runResult {
 	e.startIncarnation(s.execWorkers, s.parserWorkers, 30*time.Second)
 	e.settle()
 	wd := mod.NewDefWatchDog(15 * time.Second)
+	if s.leftBehind {
+		ageBy := []int{10, 20, 20, 40}[rng.Intn(4)]
+		w.Srv.Age(time.Duration(ageBy) * time.Second)
+		e.log(L(I(22), I(ageBy)), fmt.Sprintf("T age %ds", ageBy))
+		must(kp.VerifHeartBeat())
+		e.spawn(4, "watchdog-leftbehind", func() string {
+			if err := wd.VerifLeftBehindRound(); err != nil {
+				return "err"
+			}
+			return "ok"
+		})
+		par := e.par
+		e.spawn(1, "watchScheduled", func() string {
+			if err := par.VerifWatchScheduled(); err != nil {
+				return "err"
+			}
+			return "ok"
+		})
+		e.settle()
+	}
+	wdDone := false
 	steps := 0
 	closed := false
 	cancelDone := false
@@ -393,6 +420,19 @@ func runScenario(w *World, rng *Rng, s *Scenario, maxSteps int) *runResult {
 				done := make(chan struct{})
 				go func() { exe.Close(); par.Close(); close(done) }()
 				<-done
+				return "ok"
+			})
+			e.settle()
+		}
+		if s.wdAt >= 0 && steps >= s.wdAt && !wdDone && e.aliveRuns() > 0 {
+			wdDone = true
+			w.Srv.Age(100 * time.Second)
+			e.log(L(I(22), I(100)), "T age 100s")
+			must(kp.VerifHeartBeat())
+			e.spawn(3, "watchdog-expired", func() string {
+				if err := wd.VerifExpiredRound(); err != nil {
+					return "err"
+				}
 				return "ok"
 			})
 			e.settle()
